@@ -40,6 +40,12 @@ GEOMETRIC = ["RRT", "RRTConnect", "RRTstar", "InformedRRTstar", "SORRTstar", "RR
              "SPARStwo", "FMT", "BFMT", "BITstar", "ABITstar", "AITstar", "EITstar", "EIRMstar", "SST",
              "AnytimePathShortening", "pRRT", "pSBL", "CForest"]
 MULTILEVEL = ["QRRT", "QRRTStar", "QMP", "QMPStar"]
+# planners outside planning.h's list that the harness can construct with a fixed extra input:
+#   Lightning = LightningRetrieveRepair over an experience database holding the (unvalidated) straight line and two
+#   random detours.  (VFRRT is constructible too - harness branch kept - but its std::function returns an Eigen vector by
+#   value across the library boundary and the sanitized harness is not built with the library's Eigen alignment flags:
+#   ASan reports a bad free inside the harness's own lambda; not driven.)
+EXTRA = ["Lightning"]
 
 # The `planners.json` of DESIGN 1.4: planners NOT held to the strict form (every consecutive pair of the reported path
 # passes checkMotion again, i.e. every j/n subdivision point and every vertex is valid), with the reason.  Every planner
@@ -58,6 +64,7 @@ NOT_STRICT = {
     "STRIDE": "partial motions via 3-argument checkMotion (as KPIECE1)",
     "RRT+intermediate": "intermediate_states=1 inserts the (n+1)-subdivision points of a motion validated at its n-subdivision points (getMotionStates(count = validSegmentCount) increments count)",
     "RRTConnect+intermediate": "as RRT+intermediate",
+    "Lightning": "retrieves a stored path, repairs invalid pieces with a sub-planner and runs PathSimplifier over the result",
     "QRRT": "multilevel: path assembled over bundle-space graphs; edge discipline not analysed",
     "QRRTStar": "multilevel (as QRRT)",
     "QMP": "multilevel (as QRRT)",
@@ -106,9 +113,10 @@ NOT_ASYMMETRIC = {
     "EIRMstar": "as EITstar",
     "CForest": "runs RRTstar instances (requires symmetric interpolation)",
     "AnytimePathShortening": "runs default planners (LBKPIECE1 / RRTConnect) and shortcuts with PathSimplifier; not direction-safe as a whole",
+    "Lightning": "stored experiences are undirected state sequences; repair sub-planner and PathSimplifier (see F170) are not direction-safe",
 }
 DIRECTED_SAFE = DIRECTION_AWARE | FORWARD_ONLY
-assert set(GEOMETRIC) == DIRECTED_SAFE | set(NOT_ASYMMETRIC) and not (DIRECTED_SAFE & set(NOT_ASYMMETRIC))
+assert set(GEOMETRIC + EXTRA) == DIRECTED_SAFE | set(NOT_ASYMMETRIC) and not (DIRECTED_SAFE & set(NOT_ASYMMETRIC))
 
 
 def car_kind(name, k):
@@ -133,18 +141,19 @@ class Problem:
     """one planning problem + planner settings; everything needed to rebuild the harness input."""
 
     def __init__(self, kind, lo, hi, pdim, boxes, res, starts, goal, thr, planner, seed, budget, pollcap,
-                 rng=None, interm=None, bias=None, mode="run", trace=0, tag="random", rho=1.0, costthr=None):
+                 rng=None, interm=None, bias=None, mode="run", trace=0, tag="random", rho=1.0, costthr=None, oneway=None):
         self.kind, self.lo, self.hi, self.pdim, self.boxes = kind, list(lo), list(hi), pdim, [tuple(b) for b in boxes]
         self.res, self.starts, self.goal, self.thr = res, [list(s) for s in starts], list(goal), thr
         self.planner, self.seed, self.budget, self.pollcap = planner, seed, budget, pollcap
         self.rng, self.interm, self.bias, self.mode, self.trace, self.tag, self.rho = rng, interm, bias, mode, trace, tag, rho
         self.costthr = costthr
+        self.oneway = oneway        # (lo0, lo1, hi0, hi1): motions in -x direction touching this box are invalid
 
     def clone(self, **kw):
         d = dict(kind=self.kind, lo=self.lo, hi=self.hi, pdim=self.pdim, boxes=self.boxes, res=self.res, starts=self.starts,
                  goal=self.goal, thr=self.thr, planner=self.planner, seed=self.seed, budget=self.budget,
                  pollcap=self.pollcap, rng=self.rng, interm=self.interm, bias=self.bias, mode=self.mode, trace=self.trace,
-                 tag=self.tag, rho=self.rho, costthr=self.costthr)
+                 tag=self.tag, rho=self.rho, costthr=self.costthr, oneway=self.oneway)
         d.update(kw)
         return Problem(**d)
 
@@ -182,6 +191,13 @@ class Problem:
 
     def valid(self, r):
         return self.in_bounds(r) and not self.collides(r)
+
+    def blocked(self, a, b):
+        """the one-way rule of the harness's OneWayValidator: a motion a -> b in -x direction that touches the box"""
+        if self.oneway is None or not (b[0] < a[0]):
+            return False
+        lo, hi = self.oneway[:2], self.oneway[2:]
+        return seg_box_interval(a, b, lo, hi, 2) is not None
 
     def dist(self, a, b):
         """the space's distance where it is elementary; None otherwise (Dubins / Reeds-Shepp: C14's business)."""
@@ -245,6 +261,8 @@ class Problem:
             L.append("goalbias " + f2b(self.bias))
         if self.costthr is not None:
             L.append("costthr " + self.costthr)
+        if self.oneway is not None:
+            L.append("oneway " + " ".join(map(f2b, self.oneway)))
         L += ["seed %d" % self.seed, "budget %d %d" % (self.budget, self.pollcap), "mode " + self.mode,
               "trace %d" % self.trace, "watchdog %d" % WATCHDOG[0], "go"]
         return L
@@ -457,6 +475,33 @@ def gen_dubins_directed(r):
             boxes.append(b)
     p.boxes = boxes
     p.thr = 0.05 * extent(p)
+    return p
+
+
+def gen_oneway(r, reverse):
+    """a direction-sensitive validator on a symmetric space (lens (e)): R^2 or SE(2), a one-way box across most of the
+    height with a door; `reverse`: the start is on the high-x side, so the direct way to the goal travels -x through
+    the box (forbidden) and only the door is legitimate - a planner that validated goal-tree motions parent -> child
+    accepts the forbidden crossing."""
+    kind = r.choice(["rv2", "rv2", "se2"])
+    p = gen_env(r, kind, nboxes=r.below(3))
+    p.lo, p.hi = [0.0, 0.0], [1.0, 1.0]
+    p.boxes = [b for b in p.boxes if b[1][0] < 0.38 or b[0][0] > 0.62]
+    door = r.uniform(0.15, 0.25)
+    if r.chance(1, 2):
+        box = [0.45, door, 0.55, 1.2]          # door at the bottom
+    else:
+        box = [0.45, -0.2, 0.55, 1.0 - door]   # door at the top
+    p.oneway = box
+    tail = p.starts[0][2:]
+    hi_side = [r.uniform(0.72, 0.92), r.uniform(0.1, 0.9)]
+    lo_side = [r.uniform(0.08, 0.28), r.uniform(0.1, 0.9)]
+    s, g = (hi_side, lo_side) if reverse else (lo_side, hi_side)
+    p.starts, p.goal = [s + tail], g + p.goal[2:]
+    p.boxes = [b for b in p.boxes if not p.clone(boxes=[b]).collides(p.starts[0]) and not p.clone(boxes=[b]).collides(p.goal)]
+    p.thr = 0.05 * extent(p)
+    p.res = 0.01
+    p.tag = "oneway:" + ("reverse" if reverse else "forward")
     return p
 
 
@@ -728,6 +773,18 @@ def check_solution(p, R, sol, top, fails, obs):
                           {"on_last_edge": w2 is not None and w2 >= nlast}))
         obs["max-gap-over-lvs"] = max(obs.get("max-gap-over-lvs", 0.0), g2 / lvs)
     obs["max-sampled-gap-over-lvs"] = max(obs.get("max-sampled-gap-over-lvs", 0.0), g1 / lvs)
+    # (4b) direction: with a direction-sensitive motion validator every edge must be valid in the direction of travel
+    if p.oneway is not None:
+        for j in range(len(st) - 1):
+            if p.blocked(st[j], st[j + 1]):
+                msg = ("edge %d (%r -> %r) moves in -x direction through the one-way box %r: checkMotion(a, b) is false in the "
+                       "direction the path travels it" % (j, st[j], st[j + 1], p.oneway))
+                if p.planner in DIRECTED_SAFE:
+                    fails.append((pre + "direction", msg))
+                else:
+                    k = "direction-unsupported(validates the other way):" + p.planner
+                    obs[k] = obs.get(k, 0) + 1
+                break
     # (5) strict form: vertices and every j/n point valid
     bad, badedge = None, None
     for j, x in enumerate(st):
@@ -1027,6 +1084,8 @@ def problem_from_script(lines):
             kw["bias"] = b2f(t[1])
         elif t[0] == "costthr":
             kw["costthr"] = t[1]
+        elif t[0] == "oneway":
+            kw["oneway"] = [b2f(x) for x in t[1:5]]
         elif t[0] == "seed":
             kw["seed"] = int(t[1])
         elif t[0] == "budget":
@@ -1147,7 +1206,7 @@ def plan_quick(ck, names):
         r = ck.rng.fork("q:" + name)
         kinds = ["rv2", "rv3", "se2", car_kind(name, pi + ck.seed)]
         for e in range(3 if name in MULTILEVEL else 4):
-            kind = kinds[e] if name not in MULTILEVEL else "rv3"
+            kind = kinds[e] if name not in MULTILEVEL else ["rv3", "se2", "rv3"][e]
             env = gen_env(r, kind, pdim=2 if name in MULTILEVEL else None)
             for budget in (r.choice([150, 400]), r.choice([4000, 8000])):
                 jobs.append(env.clone(planner=name, seed=r.below(1000), budget=budget, pollcap=pollcap_for(name, budget),
@@ -1159,6 +1218,9 @@ def plan_quick(ck, names):
                 sm = gen_short_motion(r, wall)
                 jobs.append(sm.clone(planner=name, seed=r.below(100000), budget=SHORT_BUDGET.get(name, 30000),
                                      pollcap=pollcap_for(name, SHORT_BUDGET.get(name, 30000))))
+        for k in range(8 if name in DIRECTION_AWARE else 2):
+            ow = gen_oneway(r, reverse=(k % 4 != 3))
+            jobs.append(ow.clone(planner=name, seed=r.below(100000), budget=6000, pollcap=pollcap_for(name, 6000)))
         if name in DIRECTION_AWARE:
             for k in range(60 if name == "BiTRRT" else 30):
                 dd = gen_dubins_directed(r)
@@ -1178,7 +1240,7 @@ def plan_thorough(ck, names):
     for pi, name in enumerate(names):
         r = ck.rng.fork("t:" + name)
         for e in range(14):
-            kind = kinds[e % len(kinds)] if name not in MULTILEVEL else "rv3"
+            kind = kinds[e % len(kinds)] if name not in MULTILEVEL else ["rv3", "se2"][e % 2]
             if kind in ("dubins", "rs"):
                 kind = car_kind(name, e)
             env = gen_env(r, kind, pdim=2 if name in MULTILEVEL else None)
@@ -1192,6 +1254,9 @@ def plan_thorough(ck, names):
                 sm = gen_short_motion(r, wall)
                 jobs.append(sm.clone(planner=name, seed=r.below(100000), budget=SHORT_BUDGET.get(name, 30000),
                                      pollcap=pollcap_for(name, SHORT_BUDGET.get(name, 30000))))
+        for k in range(40 if name in DIRECTION_AWARE else 8):
+            ow = gen_oneway(r, reverse=(k % 4 != 3))
+            jobs.append(ow.clone(planner=name, seed=r.below(100000), budget=6000, pollcap=pollcap_for(name, 6000)))
         if name in DIRECTION_AWARE:
             for k in range(150):
                 dd = gen_dubins_directed(r)
@@ -1257,7 +1322,7 @@ def run(ck):
     # one pool for everything; the planner runs (among them the few that hang until the watchdog) are submitted first so
     # that a hang overlaps with all the other work instead of adding to the wall time
     ex = concurrent.futures.ThreadPoolExecutor(workers)
-    names = GEOMETRIC + MULTILEVEL
+    names = GEOMETRIC + EXTRA + MULTILEVEL
     jobs = plan_quick(ck, names) if ck.tier == "quick" else plan_thorough(ck, names)
     ck.log("%d planner runs on %d workers" % (len(jobs), workers))
     pfut = [ex.submit(run_problem, ck, hbin, p) for p in jobs]
@@ -1374,7 +1439,7 @@ MANIFEST = {
     "engine": "planners",
     "category": "proof",
     "design_ref": "DESIGN.md 2.1",
-    "text": "Lean 4 theorems (32): (L0) the reporting layer shared by all planners (status truth table, PlannerInputStates "
+    "text": "Lean 4 theorems (35): (L0) the reporting layer shared by all planners (status truth table, PlannerInputStates "
             "nextStart/nextGoal filter and counters, PathGeometric::check, addSolutionPath bookkeeping); (L1) planners as oracle "
             "machines (run_congr, unasked_flip, undisciplined_refutable: unqueried stretches cannot be vouched for; "
             "checked_points_valid / discipline_sound: queried-valid points are valid and dense valid queries bound every invalid "
@@ -1384,14 +1449,20 @@ MANIFEST = {
             "rrtconnect_tree_inv, rrtconnect_solution_real, rrtconnect_path_checks); (L2c) geometric::LazyPRM with A* as a checked "
             "oracle (lazyprm_roadmap_inv, lazyprm_removed_stay_removed, lazyprm_construct_validates, lazyprm_solution_real, and "
             "lazyprm_components_sound: same component id => connected, for runs on which the model's own self-check flag stays "
-            "false, which the lock-step enforces); approx_bookkeeping_real for the approximate-solution bookkeeping shared by the "
+            "false, which the lock-step enforces; lazyprm_relabel_fuel_sufficient + lazyprm_unite_selfcheck_redundant + "
+            "lazyprm_relabel_selfcheck_redundant: the as-coded fuel of the breadth-first relabelling always suffices, so of the two "
+            "self-checks only the one after a vertex removal is still a hypothesis); approx_bookkeeping_real for the approximate-solution bookkeeping shared by the "
             "tree planners; the three models are tied to the C++ by bit-exact "
             "lock-step replay of recorded sampler/goal draws (trees, path, status, flags). Trace conformance: all 41 shipped "
-            "geometric planners and 4 multilevel planners are run on random and adversarial box environments and every reported "
+            "geometric planners, LightningRetrieveRepair over a database of unvalidated experiences, and 4 multilevel planners "
+            "(R^3 over R^2; SE(2) over R^2 aborts inside solve on the unchanged tree and is counted as a crash) are run on random and adversarial box environments and every reported "
             "solution is judged by an independent spec oracle (valid in-bounds start, bounds, goal/approximate/difference/status "
             "consistency, no invalid stretch longer than twice the resolution length, and for planners in the strict table every "
             "consecutive pair passes the motion check again; non-solution statuses add no path), including Dubins and Reeds-Shepp "
-            "spaces for the planners that support them, and the constructive unobserved-gap attack on every solved run.",
+            "spaces for the planners that support them, a direction-sensitive motion validator (a motion may be valid one way and "
+            "invalid the other: no reported edge may be blocked in the direction the path travels it, enforced for the planners "
+            "whose code validates the travelled direction, counted for the others), and the constructive unobserved-gap attack "
+            "on every solved run.",
     "note": "Planners other than RRT, RRTConnect and LazyPRM are covered only on the runs explored (sampled seeds, environments, budgets); the theorems "
             "reduce their soundness to a per-run discipline which is observed, not proved. Trusted: Lean kernel, the three "
             "standard axioms, the hand-written RRT / RRTConnect models outside the lock-step runs, the harness's recording wrappers, the "
